@@ -236,6 +236,49 @@ def run_libfuzzer(c, exe, workdir, corpus_dir, runs, jobs, max_len, env=None, ex
             unresolved.append((ap, kind))
     return execd, unresolved
 
+
+# --------------------------------------------------------------------------------------
+# valgrind memcheck as a second opinion on a plain (-O2) build: uninitialised values and invalid accesses that the red-zone model
+# of ASan does not see (arena memory, uninitialised reads). Only errors whose innermost frame is carquet code count; errors that
+# start inside zlib/zstd/libc (known benign uninitialised reads in their inner loops) are counted as advisory.
+
+_REPO_BASENAMES = None
+
+
+def valgrind_errors(text):
+    """yields (kind, function, basename:line, block) per memcheck error block"""
+    global _REPO_BASENAMES
+    if _REPO_BASENAMES is None:
+        _REPO_BASENAMES = set(os.path.basename(p) for p in LIB_SOURCES)
+    blocks = re.split(r'\n==\d+== \n', text)
+    for b in blocks:
+        m = re.search(r'==\d+== (Conditional jump or move depends on uninitialised value\(s\)|Use of uninitialised value of size \d+|Invalid read of size \d+|Invalid write of size \d+|Syscall param \S+ (?:points to|contains) uninitialised byte\(s\)|Invalid free\(\)[^\n]*|Mismatched free\(\)[^\n]*|Source and destination overlap[^\n]*)', b)
+        if not m:
+            continue
+        fm = re.search(r'==\d+==    at 0x[0-9A-Fa-f]+: (\S+) \(([^):]+):(\d+)\)', b)
+        if not fm:
+            fm2 = re.search(r'==\d+==    at 0x[0-9A-Fa-f]+: (\S+)', b)
+            yield re.sub(r'\d+', 'N', m.group(1)).replace(' ', '-')[:50], (fm2.group(1) if fm2 else '?'), None, b
+            continue
+        yield re.sub(r'\d+', 'N', m.group(1)).replace(' ', '-')[:50], fm.group(1), (fm.group(2), int(fm.group(3))), b
+
+
+def run_valgrind(c, cmd, env=None, timeout=7200, what=''):
+    r = run(['valgrind', '--tool=memcheck', '-q', '--error-exitcode=0', '--track-origins=yes', '--num-callers=12', '--error-limit=no'] + cmd, env=env, timeout=timeout)
+    err = r.stderr.decode('latin1')
+    c.count('valgrind_runs')
+    if r.returncode == -999:
+        c.fail_harness('valgrind run exceeded its watchdog: %s' % ' '.join(cmd)[:200])
+    n = 0
+    for kind, fn, loc, blk in valgrind_errors(err):
+        n += 1
+        if loc and loc[0] in _REPO_BASENAMES:
+            c.violation('valgrind:%s:%s' % (kind, fn), '%s at %s:%d (%s)' % (kind, loc[0], loc[1], what), text=blk)
+        else:
+            c.count('valgrind_reports_starting_outside_carquet')
+    c.count('valgrind_error_blocks', n)
+    return r
+
 # --------------------------------------------------------------------------------------
 # sanitizer report classification
 
